@@ -115,6 +115,23 @@ def check_rg(ctx, spec, reqs, posts):
             ctx.disagree(dict(op="rg", spec=spec), dict(hdist=list(sp._hdistances), dvol=sp.scalar_dvol, total=sp.total_volume,
                                                          size=sp.size), m, "C08 RGSpace distances / volumes (class T vs exact)")
     posts.append(post)
+    # the constructor honours the requested distances (a scalar is broadcast to every axis)
+    dreq = spec.get("distances")
+    if dreq is not None and np.isscalar(dreq):
+        dreq = [dreq] * len(spec["shape"])
+    rq = dict(op="rgctor", shape=spec["shape"], harmonic=bool(spec["harmonic"]))
+    if dreq is not None:
+        rq["distances"] = [fs(x) for x in dreq]
+    reqs.append(rq)
+
+    def postc(m, sp=sp, spec=spec):
+        ctx.case(dict(op="rgctor", spec=spec), len(spec["shape"]) > 1)
+        ok = all(close(a, Fraction(b), 1e-14) for a, b in zip(sp.distances, m["distances"])) and \
+            all(close(a, Fraction(b), 1e-14) for a, b in zip(sp._rdistances, m["rdist"])) and len(sp.distances) == len(m["distances"])
+        if not ok:
+            ctx.disagree(dict(op="rgctor", spec=spec), dict(distances=list(map(float, sp.distances)), rdist=list(map(float, sp._rdistances))),
+                         m, "C08 RGSpace constructor: requested vs reported distances (class T)")
+    posts.append(postc)
     if sp.harmonic:
         hd = [float(x) for x in sp.distances]
         reqs.append(dict(op="ksq", shape=spec["shape"], h=[fs(x) for x in hd]))
@@ -167,6 +184,12 @@ def oracle_geometry(spec):
         return (f"the pixels of a {spec['kind']} sphere pixelisation have total volume {tot}, not 4 pi",
                 dict(sig, what="sphere-area"))
     if spec["kind"] == "rg":
+        dreq = spec.get("distances")
+        n = np.array(sp.shape, dtype=np.float64)
+        want = (np.ones_like(n) if sp.harmonic else 1.0 / n) if dreq is None else np.broadcast_to(np.asarray(dreq, dtype=np.float64), n.shape)
+        if not np.allclose(np.array(sp.distances), want, rtol=1e-13, atol=0):
+            return (f"RGSpace reports distances {list(map(float, sp.distances))}, requested {want.tolist()}",
+                    dict(sig, what="requested-distances"))
         cod = sp.get_default_codomain()
         prod = np.array(sp.shape) * np.array(sp.distances) * np.array(cod.distances)
         if not np.allclose(prod, 1.0, rtol=1e-12, atol=0):
@@ -426,8 +449,39 @@ def oracle_identity(case):
     return None
 
 
+def oracle_tuple(case):
+    """DomainTuple / MultiDomain geometry: shape, size, axes and volumes of a product are those of its factors"""
+    import nifty.cl as ift
+    doms = desc_of(POOL[case["pool"]])
+    sig = dict(kind="tuple", what="")
+    dt = ift.DomainTuple.make(doms)
+    shp = tuple(x for d in doms for x in d.shape)
+    if tuple(dt.shape) != shp or dt.size != int(np.prod(shp, dtype=np.int64)) or len(dt) != len(doms):
+        return ("DomainTuple shape / size is not the concatenation / product of its factors", dict(sig, what="shape"))
+    ax = [a for t in dt.axes for a in t]
+    if ax != list(range(len(shp))) or [len(t) for t in dt.axes] != [len(d.shape) for d in doms]:
+        return ("DomainTuple.axes do not partition the array axes factor by factor", dict(sig, what="axes"))
+    if all(hasattr(d, "total_volume") for d in doms):
+        tv = float(np.prod([float(d.total_volume) for d in doms])) if doms else 1.0
+        if not close(dt.total_volume(), tv, 1e-12):
+            return ("DomainTuple.total_volume is not the product of the factors' volumes", dict(sig, what="total-volume"))
+        for i, d in enumerate(doms):
+            if not close(dt.total_volume(i), float(d.total_volume), 1e-12):
+                return ("DomainTuple.total_volume(i) differs from the factor's", dict(sig, what="total-volume-i"))
+        sw = dt.scalar_weight()
+        sws = [d.scalar_dvol for d in doms]
+        if (sw is None) != any(x is None for x in sws) or (sw is not None and not close(sw, float(np.prod(sws)) if sws else 1.0, 1e-12)):
+            return ("DomainTuple.scalar_weight is not the product of the uniform volume elements", dict(sig, what="scalar-weight"))
+    md = ift.MultiDomain.make({"a": doms, "b": doms[:1]})
+    if md.size != dt.size + ift.DomainTuple.make(doms[:1]).size or list(md.keys()) != ["a", "b"]:
+        return ("MultiDomain size / keys inconsistent", dict(sig, what="multi"))
+    return None
+
+
 def oracle(case):
     k = case.get("op")
+    if k == "tuple":
+        return oracle_tuple(case)
     if k == "geometry":
         return oracle_geometry(case["spec"])
     if k == "powerspace":
@@ -474,7 +528,10 @@ def run(ctx):
            dict(kind="rg", shape=[3, 4, 5], distances=[2e-9, 3e-9, 2.5e-9], harmonic=True),
            dict(kind="rg", shape=[16, 12], distances=[1 / (16 * 1e7), 1 / (12 * 3e7)], harmonic=True),
            dict(kind="rg", shape=[6, 4], distances=[4e8, 4e8 * (1 - 1e-6)], harmonic=True),
-           dict(kind="rg", shape=[6, 4], distances=[1e7, 3e7], harmonic=False)]
+           dict(kind="rg", shape=[6, 4], distances=[1e7, 3e7], harmonic=False),
+           # every constructor spelling of the distances: scalar / per axis / None, position / harmonic
+           dict(kind="rg", shape=[4, 6], distances=0.5, harmonic=True), dict(kind="rg", shape=[4, 6], distances=0.5, harmonic=False),
+           dict(kind="rg", shape=[3, 5, 2], distances=3.0, harmonic=True), dict(kind="rg", shape=[4, 6], distances=None, harmonic=False)]
     rgs = [c["spec"] for c in _corpus() if c.get("op") == "geometry" and c["spec"]["kind"] == "rg"] + rgs
     rgs += [gen_rg(rng) for _ in range(ctx.n(30, 400))]
     for spec in rgs:
@@ -521,6 +578,13 @@ def run(ctx):
             r = oracle_power(ps)
             if r:
                 ctx.counterexample(dict(op="powerspace", spec=ps), *r)
+    for pi in range(len(POOL)):
+        c = dict(op="tuple", pool=pi)
+        ctx.case(c, len(POOL[pi]) > 1)
+        ctx.stat("tuple-geometry")
+        r = oracle_tuple(c)
+        if r:
+            ctx.counterexample(c, *r)
     # --- identity
     hists = [c["hist"] for c in _corpus() if c.get("op") == "identity"]
     hists += [gen_history(rng, rng.randrange(6, 15)) for _ in range(ctx.n(40, 400))]
